@@ -413,6 +413,58 @@ pub fn mirror_reuse(p: &Program, h: usize, reference: &[BddNode]) -> Vec<(String
     out
 }
 
+/// the part of the streaming check that every feature build with the `frontend` feature runs (C12): all producer programs x
+/// all placements of <= 1 poll x all handles, the repair step on connected stores, the mirror used as a store
+pub fn feature_battery(run: &Run) -> u64 {
+    let mut progs = pinned();
+    progs.extend(programs(3));
+    let (res, _) = run.par_for(
+        "streaming",
+        progs.len() as u64,
+        || 0u64,
+        |st, k| {
+            let p = &progs[k as usize];
+            let mut b = Bdd::new();
+            run_program(&mut b, p);
+            let reference = b.nodes.clone();
+            let n = reference.len() - 2;
+            let mut report = |found: Vec<(String, String)>, case: Value| {
+                for (kind, msg) in found {
+                    run.violation(&format!("C19:{}", kind), format!("{} on program {}", msg, prog_json(p)), json!({"inner_property": "C19", "inner_case": case.clone()}));
+                }
+            };
+            for np in 0..=1 {
+                for s in schedules(n, np) {
+                    *st += 1;
+                    let case = json!({"type": "stream", "program": prog_json(p), "polls": s, "threaded": false});
+                    match guard(|| run_schedule(p, &s, false, &reference)) {
+                        Err(m) => report(vec![("stream:panic".into(), m)], case),
+                        Ok((_, found)) => report(found, case),
+                    }
+                }
+            }
+            for who in 0..3u8 {
+                for j in 0..=p.ops.len() {
+                    *st += 1;
+                    let case = json!({"type": "repair", "program": prog_json(p), "after_ops": j, "who": who});
+                    match guard(|| run_repair(p, j, who, &reference)) {
+                        Err(m) => report(vec![("repair:panic".into(), m)], case),
+                        Ok(found) => report(found, case),
+                    }
+                }
+            }
+            *st += 1;
+            let case = json!({"type": "mirror-reuse", "program": prog_json(p), "handle": reference.len() - 1});
+            match guard(|| mirror_reuse(p, reference.len() - 1, &reference)) {
+                Err(m) => report(vec![("mirror:panic".into(), m)], case),
+                Ok(found) => report(found, case),
+            }
+        },
+        &|k| json!({"type": "stream", "program": prog_json(&progs[k as usize]), "polls": [], "threaded": false}),
+    );
+    res.iter().sum()
+}
+
 /// the family over all producer programs and all awaited handles (shared by C19 and C06)
 pub fn mirror_reuse_family(run: &Run) {
     let mut progs = pinned();
